@@ -240,6 +240,13 @@ impl ImplState {
             // answer the implementation gave earlier (the answer is embedded in the operation)
             "s.judge" if t.len() >= 4 => "ok".into(),
             "s.afterstop" => format!("{}", self.searcher.verif_timer().verif_nodes_after_stop),
+            "s.ttdepth" if t.len() == 2 => match parse_board(t[1]) {
+                Some(b) => {
+                    let h = self.searcher.verif_hash(&b);
+                    match self.searcher.verif_tt().retrieve(h) { Some(e) => e.depth.to_string(), None => "none".into() }
+                }
+                None => "bad-op".into(),
+            },
             // s.fresh <board> <depth>: completed search on a FRESH searcher with the current keys
             "s.fresh" if t.len() == 3 => match (parse_board(t[1]), t[2].parse::<u8>()) {
                 (Some(b), Ok(d)) => { let (score, mv, deeper) = self.fresh_search(&b, d); format!("{} {} deeper={}", score, opt_mv_text(&mv), deeper) }
